@@ -338,6 +338,8 @@ def gen_heatmap(rng, tier, auto=False):
         else:
             raw["coords"][d] = make_coord(rng, ids, raw["dims"][d], rng.choice(["int", "float"]) if d in ("x", "y") else None,
                                           increasing=d in ("x", "y"))
+            if d in ("x", "y") and rng.random() < 0.25:
+                raw["coords"][d]["ids"] = list(reversed(raw["coords"][d]["ids"]))     # a descending mesh coordinate
     active = list(raw["dims"].keys())
     raw["vars"]["h"] = make_var(rng, ids, raw, ["x", "y"] if auto else perm(rng, active),
                                 rng.choice([0, 0.1, 0.3]), rng.choice([0, 0, 0.05]))
